@@ -33,6 +33,7 @@ var HostileText = []string{
 	"a \"quoted\" word", "back\\slash", "line one\nline two", "triple \"\"\" inside", "ends with quote\"", "\"starts with quote", "ends with backslash\\",
 	"unicode é ü 😀 ℵ", "tab\there", "  leading blanks", "trailing blanks  ", "\\n literal backslash-n", "a\n\nb (blank line)", "# not a comment",
 	"\\\"", "\"\"", "\"\"\"\"", "five \"\"\"\"\" quotes", "\"\\", "q\"\\x", "\\\\", "quotes \"\"\" and ünï 😀 code", "é\"\"\"\"", "mixed \"q\" and \\ and \n newline", "\\u0041", "€uro", "ctl \x01 char", "\r\ncrlf",
+	"  \"padded\" and quoted  ", " \"x\"", "quote at the end \" ", "\t\\ tab, backslash, blanks  ",
 }
 
 // hostileAtoms are glued together into descriptions and string values nobody wrote by hand.
